@@ -32,7 +32,7 @@ def stmt_regs(s):
         used = [s[1]]
         for b in s[2]: used += stmt_regs(b)[1]
         return None, used
-    if op in ("pack", "unpack"): return s[1], [s[3]]
+    if op in ("pack", "unpack", "permute", "poseidon", "ggh"): return s[1], [s[3]]
     if op == "snark":
         def lv(t): return [t] if isinstance(t, int) else [y for x in t[1] for y in lv(x)]
         used = [y for t in s[2] for y in lv(t)] + lv(s[4])
